@@ -10,6 +10,8 @@ from harness.props import c03
 ID = "C04"
 LEAN_MODULES = ["HierArc.Props.C04"]
 TRANSLATE = ["tables"]
+# when the translator cannot follow a rewritten source, the last generated model is run against the implementation instead
+TRANSLATOR_FALLBACK = True
 RULE = ("scenario grid: every scatter parameter (lambda_mst, lambda_ifu, a_ani, beta_inf, gamma_in, log_m2l, "
         "global gamma_pl, sigma_sne, LOS Gaussian/GEV) x lens flagging that makes it applicable or not (IFU flag, "
         "sampling switches, interpolated axes, LOS assignment, likelihood type) x N in {2,3,5,8}; exactly one "
